@@ -23,6 +23,7 @@ from . import scratch
 from .tape import Tape, minimise
 
 VERIF = os.path.dirname(os.path.dirname(os.path.abspath(__file__)))
+OUT = os.environ.get("VERIF_OUT") or VERIF      # where evidence/ and replays/ go (self-tests redirect it)
 RUN_WALL_LIMIT = 120          # seconds per simulated run (hang guard)
 
 
@@ -185,8 +186,8 @@ def load_known():
 
 
 def write_replay(prop, seed, payload):
-    os.makedirs(os.path.join(VERIF, "replays"), exist_ok=True)
-    path = os.path.join(VERIF, "replays", "%s-%d.json" % (prop, seed))
+    os.makedirs(os.path.join(OUT, "replays"), exist_ok=True)
+    path = os.path.join(OUT, "replays", "%s-%d.json" % (prop, seed))
     with open(path, "w") as f:
         json.dump(payload, f, indent=1, default=repr, ensure_ascii=True)
     return path
@@ -371,8 +372,8 @@ def write_evidence(prop, mod, tier, seed, agg, wall, nviol, extra, known_hit, ha
         "wall_s": round(wall, 2),
         "violations": nviol,
     }
-    os.makedirs(os.path.join(VERIF, "evidence"), exist_ok=True)
-    path = os.path.join(VERIF, "evidence", prop + ".json")
+    os.makedirs(os.path.join(OUT, "evidence"), exist_ok=True)
+    path = os.path.join(OUT, "evidence", prop + ".json")
     tmp = path + ".tmp%d" % os.getpid()
     with open(tmp, "w") as f:
         json.dump(ev, f, indent=1, default=repr, ensure_ascii=True)
